@@ -3,10 +3,12 @@
 # (the suite rewrites notebooks/tutorials/*.ipynb in place), compares with BASELINE.json
 # (no stable_pass test may fail or error) and removes the copy afterwards.
 set -u
+# (a job started with & from a non-interactive shell inherits SIGINT ignored; tests/test_break.py relies on
+#  _thread.interrupt_main(), which is then a no-op and every execution runs its 10000 proposals: the launcher below resets it)
 unset HMCLAB_VERIF
 S=$(mktemp -d /var/tmp/hmclab_baseline.XXXXXX)
 trap 'rm -rf "$S"' EXIT
 rsync -a --exclude .git /repo/ "$S/repo/"
 J="${1:-$S/junit.xml}"
-( cd "$S/repo" && OMP_NUM_THREADS=2 OPENBLAS_NUM_THREADS=2 /venv/bin/python -m pytest -ra -q -p no:cacheprovider --timeout=900 --continue-on-collection-errors --junitxml="$J" 2>&1 | tail -8 )
+( cd "$S/repo" && OMP_NUM_THREADS=2 OPENBLAS_NUM_THREADS=2 /venv/bin/python -c 'import signal, os, sys; signal.signal(signal.SIGINT, signal.SIG_DFL); os.execv(sys.executable, [sys.executable, "-m", "pytest"] + sys.argv[1:])' -ra -q -p no:cacheprovider --timeout=900 --continue-on-collection-errors --junitxml="$J" 2>&1 | tail -8 )
 python3 /verif/tools/baseline_compare.py "$J" /root/.vp/BASELINE.json
